@@ -445,7 +445,9 @@ func init() {
 		"io.ReadFull": func(ex *Exec, st *State, args []Value, in *ssa.Call, pos token.Pos) bool {
 			id, ok := ex.streamOf(st, args[0])
 			if !ok {
-				panic("io.ReadFull on unknown reader")
+				// not one of the engine's streams (a reader written in Go): run the real io.ReadFull
+				ex.pushCall(st, in.Call.StaticCallee(), args, in)
+				return true
 			}
 			buf := args[1].(SliceV)
 			n := buf.Len
